@@ -339,3 +339,20 @@ Proof.
   split; [split; [exact G|]|vm_compute; reflexivity].
   rewrite L. apply (proj1 (Proofs.C01_Mut1.from_pairs_ok _)).
 Qed.
+
+(* update / update_extend / |= : E is any iterable of pairs, a mapping, the object itself, or ANOTHER
+   OrderedMultiDict (passed by its state q, [arg_pv]); F the keyword mapping *)
+From Boltons Require Import Proofs.C01_SrcEq3.
+Theorem C01_source_update : forall p q a kw, PInv p -> Good q -> wf_op (Update a kw) = true ->
+  src_call MUpdate [arg_pv q a; VKw kw] p = ok_or_same p (pm_update p q a kw).
+Proof. exact (source_update 1). Qed.
+Print Assumptions C01_source_update.
+Theorem C01_source_update_extend : forall p q a kw, PInv p -> Good q -> wf_op (UpdateExtend a kw) = true ->
+  src_call MUpdateExtend [arg_pv q a; VKw kw] p = ok_or_same p (pm_update_extend p q a kw).
+Proof. exact (source_update_extend 1). Qed.
+Print Assumptions C01_source_update_extend.
+Theorem C01_source_ior : forall p q a, PInv p -> Good q -> wf_op (IOr a) = true ->
+  src_call MIOr [arg_pv q a] p
+  = match pm_update p q a [] with Ok p' => (Ok VSelfObj, p') | Raise e => (Raise e, p) end.
+Proof. exact (source_ior 0). Qed.
+Print Assumptions C01_source_ior.
